@@ -122,3 +122,119 @@ func runPipeStress(seed int64, n, pipers int) (traces []*Trace, overlapped int, 
 	}
 	return traces, 0, nil
 }
+
+type c4release struct{ ID int }
+type c4go struct{ ID int }
+
+// runReincarnation: a named actor asks a slow responder and terminates; a new actor is spawned under the same name and
+// asks again; the answer to the first request arrives late, before the answer to the second one.  The second future
+// must complete with its own answer.
+func runReincarnation(seed int64) ([]map[string]any, error) {
+	verifhook.Set(nil)
+	sys := actor.NewSystem(vivid.WithActorSystemContext(context.Background()), vivid.WithActorSystemLogger(silentLogger), vivid.WithActorSystemStopTimeout(2*time.Second))
+	if err := sys.Start(); err != nil {
+		return nil, err
+	}
+	defer func() { go sys.Stop(2 * time.Second) }()
+	var mu sync.Mutex
+	var events []map[string]any
+	ev := func(e map[string]any) { mu.Lock(); events = append(events, e); mu.Unlock() }
+	senders := map[int]vivid.ActorRef{}
+	asked := make(chan int, 4)
+	slow, err := sys.ActorOf(vivid.ActorFN(func(ctx vivid.ActorContext) {
+		switch m := ctx.Message().(type) {
+		case c4ask:
+			mu.Lock()
+			senders[m.ID] = ctx.Sender()
+			mu.Unlock()
+			asked <- m.ID
+		case c4release:
+			mu.Lock()
+			to := senders[m.ID]
+			mu.Unlock()
+			if to != nil {
+				if m.ID == 2 {
+					ev(map[string]any{"e": "Attempt", "a": "r2"})
+				}
+				ctx.Tell(to, c4rep{ID: m.ID})
+			}
+		}
+	}), vivid.WithActorName("slow"))
+	if err != nil {
+		return nil, err
+	}
+	results := make(chan string, 4)
+	dead := make(chan struct{}, 2)
+	spawnAsker := func() (vivid.ActorRef, error) {
+		return sys.ActorOf(vivid.ActorFN(func(ctx vivid.ActorContext) {
+			switch m := ctx.Message().(type) {
+			case c4go:
+				f := ctx.Ask(slow, c4ask{ID: m.ID}, 1500*time.Millisecond)
+				go func(id int) {
+					r, err := f.Result()
+					switch {
+					case err != nil:
+						results <- fmt.Sprintf("%d:error", id)
+					default:
+						if rep, ok := r.(c4rep); ok {
+							results <- fmt.Sprintf("%d:r%d", id, rep.ID)
+						} else {
+							results <- fmt.Sprintf("%d:other", id)
+						}
+					}
+				}(m.ID)
+			case *vivid.OnKilled:
+				if m.Ref.Equals(ctx.Ref()) {
+					dead <- struct{}{}
+				}
+			}
+		}), vivid.WithActorName("asker"))
+	}
+	wait := func(ch chan int) error {
+		select {
+		case <-ch:
+			return nil
+		case <-time.After(2 * time.Second):
+			return fmt.Errorf("the responder did not receive the request")
+		}
+	}
+	a1, err := spawnAsker()
+	if err != nil {
+		return nil, err
+	}
+	sys.Tell(a1, c4go{ID: 1})
+	if err := wait(asked); err != nil {
+		return nil, err
+	}
+	sys.Kill(a1, false, "first incarnation")
+	select {
+	case <-dead:
+	case <-time.After(2 * time.Second):
+		return nil, fmt.Errorf("the first asker did not terminate")
+	}
+	<-results // the first future fails with the asker's death
+	time.Sleep(20 * time.Millisecond)
+	a2, err := spawnAsker()
+	if err != nil {
+		return nil, fmt.Errorf("the name could not be re-used: %w", err)
+	}
+	sys.Tell(a2, c4go{ID: 2})
+	if err := wait(asked); err != nil {
+		return nil, err
+	}
+	sys.Tell(slow, c4release{ID: 1}) // the late answer to the dead asker's request
+	time.Sleep(40 * time.Millisecond)
+	sys.Tell(slow, c4release{ID: 2})
+	select {
+	case r := <-results:
+		// "2:r2" is the own answer; "2:r1" is the answer to somebody else's request
+		ev(map[string]any{"e": "Result", "a": "w1", "s": r[2:]})
+	case <-time.After(3 * time.Second):
+		ev(map[string]any{"e": "Final", "n": 0, "v": 0, "p": ""})
+		return events, nil
+	}
+	ev(map[string]any{"e": "Final", "n": 1, "v": 0, "p": ""})
+	mu.Lock()
+	defer mu.Unlock()
+	return append([]map[string]any{}, events...), nil
+}
